@@ -1,7 +1,7 @@
 #!/bin/bash
 # intake every /tmp/seeded_out/<prop>/change<k> not yet under /verif/seeded, then run the checks against the new ones
 new=""
-for d in /tmp/seeded_out/C*/change*; do
+for d in ${SRC:-/tmp/seeded_out}/C*/change*; do
   [ -f "$d/patch.diff" ] || continue
   prop=$(basename $(dirname $d)); k=$(basename $d | sed 's/change//')
   round=${ROUND:-r1}
